@@ -199,6 +199,8 @@ def solver_case(emit, cid, solver, df, pen, rng, seed, rep):
         if cs["group_style"] == "trap":
             cs["p"] = max(cs["p"], 6)
             cs["xkind"] = "centered"      # columns on different scales: a column taken for another one changes the numbers
+    if df == "QuadraticMultiTask" and rep % 2 == 1:
+        cs.update(n_tasks=int(rng.integers(2, 4)), mutate_y="zero_task")     # a row update then moves only some tasks
     case = K.Case(cs)
     warm = str(rng.choice(["cold", "dense"]))
     w_start, xw_start = case.start(warm)
